@@ -88,6 +88,7 @@ type Oblig struct {
 	File    string
 	Confirmed string
 	GoalFree string // the clause over unconstrained result constants $free_res_i (see finish)
+	ScriptPos int   // length of the function's script when the obligation was generated
 }
 
 type loopInfo struct {
@@ -145,6 +146,7 @@ type VC struct {
 	crossAssumed  map[string]bool
 	epoch         int
 	freeResults   []SVal
+	selectOrd     map[*ssa.Select]int
 }
 
 type debugBinding struct {
@@ -635,6 +637,8 @@ func (vc *VC) oblige(kind, guard, goal string, pos token.Pos, desc string) *Obli
 		Pos:   pos,
 		Desc:  desc,
 		Func:  vc.fn.String(),
+		// an obligation may use only what was known when it arose: the script up to this point
+		ScriptPos: vc.b.Len(),
 	}
 	switch kind {
 	case "index", "slice", "nil", "unsafe-read", "div", "panic", "type-assert", "overflow", "conv":
